@@ -34,14 +34,17 @@ import (
 
 type limitEntryRoute struct {
 	name   string
-	base   int  // D = base + d
-	dMin   int  // smallest meaningful d
-	dFixed bool // the route has no nesting parameter (d is dMin only)
+	base   int             // D = base + d
+	dMin   int             // smallest meaningful d
+	dFixed bool            // the route has no nesting parameter (d is dMin only)
+	need   func(d int) int // overrides base + d where the accounting is not linear
 	// op performs the entry; it returns a short rendering of what the API reported
 	op func(vm *otto.Otto) string
 }
 
-const limitEntrySetup = `Object.defineProperty(this, "acc", { get: function(){ r(); return 1; }, configurable: true }); ` +
+const limitEntrySetup = `ri = function(){ depth++; if (depth > maxseen) maxseen = depth; if (depth < maxd) { (0, eval)("ri()"); } depth--; }; ` +
+	`re = function(){ depth++; if (depth > maxseen) maxseen = depth; if (depth < maxd) { eval("re()"); } depth--; }; ` +
+	`Object.defineProperty(this, "acc", { get: function(){ r(); return 1; }, configurable: true }); ` +
 	`holder = { r: r }; ts = { toString: function(){ r(); return "s"; } }; vo = { valueOf: function(){ r(); return 7; } }; plain = {}; arr = [1];`
 
 func apiResult(v otto.Value, err error) string {
@@ -103,6 +106,35 @@ var limitEntryRoutes = []limitEntryRoute{
 	{name: "get_accessor", base: 0, dMin: 1, op: func(vm *otto.Otto) string {
 		return apiResult(vm.Get("acc"))
 	}},
+	// nesting through indirect eval below a script function entered from rest:
+	// ri (index 0), then per level eval's native frame, the global frame it enters, ri
+	{name: "value_call_script_indirect_eval", dMin: 1, need: func(d int) int { return 3 * (d - 1) }, op: func(vm *otto.Otto) string {
+		return apiResult(getv(vm, "ri").Call(otto.UndefinedValue()))
+	}},
+	// nesting through direct eval: re number i sits at index i-1 and its eval (one unit
+	// per active direct eval) is checked against (i-1) + i: need = max(d-1, 2d-3)
+	{name: "value_call_script_direct_eval", dMin: 1, need: func(d int) int {
+		if d == 1 {
+			return 0
+		}
+		return 2*d - 3
+	}, op: func(vm *otto.Otto) string {
+		return apiResult(getv(vm, "re").Call(otto.UndefinedValue()))
+	}},
+	// a host function entered from rest that re-enters the runtime and calls r:
+	// global frame, host frame, (Run / Otto.Call: another global frame,) r ...
+	{name: "value_call_host_run", base: 2, dMin: 1, op: func(vm *otto.Otto) string {
+		return apiResult(getv(vm, "hrec").Call(otto.UndefinedValue(), 0))
+	}},
+	{name: "value_call_host_otto_call", base: 2, dMin: 1, op: func(vm *otto.Otto) string {
+		return apiResult(getv(vm, "hrec").Call(otto.UndefinedValue(), 1))
+	}},
+	{name: "value_call_host_value_call", base: 1, dMin: 1, op: func(vm *otto.Otto) string {
+		return apiResult(getv(vm, "hrec").Call(otto.UndefinedValue(), 2))
+	}},
+	{name: "otto_call_host_run", base: 2, dMin: 1, op: func(vm *otto.Otto) string {
+		return apiResult(vm.Call("hrec", nil, 0))
+	}},
 	// native functions entered from rest: global frame + native frame
 	{name: "value_call_native", base: 1, dMin: 0, dFixed: true, op: func(vm *otto.Otto) string {
 		return apiResult(getv(vm, "parseInt").Call(otto.UndefinedValue(), "7"))
@@ -146,6 +178,8 @@ var limitEntryOK = map[string]string{
 	"tostring_script": "ok:s", "string_script": "ok:s", "tofloat_script": "ok:7", "get_accessor": "ok:d:1",
 	"value_call_native": "ok:d:7", "otto_call_native": "ok:d:7",
 	"value_call_native_callback": "ok:u", "object_call_native_callback": "ok:u",
+	"value_call_script_indirect_eval": "ok:u", "value_call_script_direct_eval": "ok:u",
+	"value_call_host_run": "ok:u", "value_call_host_otto_call": "ok:u", "value_call_host_value_call": "ok:u", "otto_call_host_run": "ok:u",
 	"tostring_native": "ok:[object Object]", "string_native": "ok:[object Object]", "tofloat_native": "ok:NaN",
 }
 
@@ -199,6 +233,9 @@ func checkLimitEntry(r *engine.Run, route limitEntryRoute, direct callForm, L, d
 		opRes = fmt.Sprintf("panic:(%T: %v)", out.pan, out.pan)
 	}
 	need := route.base + d
+	if route.need != nil {
+		need = route.need(d)
+	}
 	success := L == 0 || need < L
 	exp := limitEntryOK[route.name]
 	if !success {
